@@ -229,6 +229,37 @@ fn capi_names(l: &mut Local, names: &[String], rng: &mut Rng) {
             }
         }
     }
+    // ... also when built by the FILE constructor, with the same path holding two different codes one after the other
+    {
+        let path = format!("/verif/target/legs/c18-names-{}.alist", std::process::id());
+        let _ = std::fs::create_dir_all("/verif/target/legs");
+        let m2 = Mat::new(4, 6, vec![(0, 0), (0, 2), (0, 4), (1, 1), (1, 2), (1, 5), (2, 0), (2, 3), (2, 5), (3, 1), (3, 3), (3, 4)], "second-4x6");
+        for (step, mm) in [&m, &m2, &m].into_iter().enumerate() {
+            std::fs::write(&path, mm.to_sparse().alist()).expect("write alist");
+            let cw2 = genm::random_codeword(rng, mm);
+            for n in names.iter().step_by(5) {
+                println!("CASE C file ctor step {} {}", step, n);
+                let llrs = genm::llr_vector(rng, mm.cols, 7, Some(&cw2));
+                let Some(mut dd) = direct(n, mm.to_sparse()) else { continue };
+                let want = dd.decode(&llrs, 3);
+                let (wret, wword) = match &want {
+                    Ok(o) => (o.iterations as i32, o.codeword.clone()),
+                    Err(o) => (-1, o.codeword.clone()),
+                };
+                l.eval();
+                if let Some((ret, out)) = crate::props::c19::c_decode_once_file(&path, n.as_bytes(), &llrs, 3, mm.cols) {
+                    if ret != wret || out != wword {
+                        l.violation(
+                            "the decoder built by the C file constructor for a name does not behave like the generic decoder on the matrix the file contains",
+                            J::obj().set("name", n.clone()).set("step", step).set("c_return", ret).set("generic", format!("{:?}", want)),
+                        );
+                        break;
+                    }
+                }
+            }
+        }
+        let _ = std::fs::remove_file(&path);
+    }
     let mut bad: Vec<String> = vec!["".into(), "phif64".into(), "PHIF64".into(), "Phif64 ".into(), " Phif64".into(), "Phif64\n".into(), "\tAminstari8\r\n".into(), "HLAminstari8Jones".into(), "HLPhif64 ".into(), "Phif".into()];
     for n in names {
         bad.push(format!("{} ", n));
